@@ -17,6 +17,8 @@ for the two ABI-mode implementations:
 
 A library is the set of symbols it exports: functions, and `int` globals with
 their initial values (`dlsym` succeeds exactly on those).  Names are numbers.
+The close is modelled both as one uninterrupted call (`Op.close`) and as the
+sequence of its steps (`Op.closeStep`) with other threads' accesses in between.
 Not modelled: the range check of the written value (`int`), `ffi.addressof(lib, …)`,
 integer constants (they never touch the library), what calling a function
 object fetched before the close does afterwards (undefined; outside the property).
@@ -26,6 +28,13 @@ namespace CffiVerif.DlClose
 abbrev Name := Nat
 
 inductive Impl | inline | outOfLine
+  deriving Repr, DecidableEq
+
+/-- Where the `ffi.dlclose` call that is closing the library stands (`none`: no close in flight). -/
+inductive Phase
+  | none
+  | nulled     -- the handle has been NULLed, the cache is not cleared yet
+  | cleared    -- (out-of-line) handle NULLed and cache cleared, `dlclose()` not called yet
   deriving Repr, DecidableEq
 
 structure State where
@@ -39,26 +48,36 @@ structure State where
   funcs : List Name
   /-- memory of the library's globals: exported variable ↦ current value -/
   mem : List (Name × Int)
+  /-- progress of the in-flight close -/
+  phase : Phase
+  /-- ghost: this handle's reference to the library has not been given back to `dlclose()` yet -/
+  loaded : Bool
   deriving Repr, DecidableEq
 
 /-- Freshly `dlopen`ed library. -/
 def openLib (funcs : List Name) (vars : List (Name × Int)) : State :=
-  { isOpen := true, cachedF := [], cachedV := [], funcs := funcs, mem := vars }
+  { isOpen := true, cachedF := [], cachedV := [], funcs := funcs, mem := vars, phase := .none, loaded := true }
 
 inductive Op
   | getFunc (n : Name)            -- `lib.n` for a name declared as a function
   | readVar (n : Name)            -- `lib.n` for a name declared as a variable
   | writeVar (n : Name) (v : Int) -- `lib.n = v`
-  | close                         -- `ffi.dlclose(lib)`
+  | close                         -- a whole `ffi.dlclose(lib)` call, executed without interruption
+  | closeStep                     -- the next step of an `ffi.dlclose(lib)` call other threads interleave with
   deriving Repr, DecidableEq
 
-inductive Err | closed | notFound
+inductive Err
+  | closed
+  | notFound
+  | useAfterUnload    -- the access went to the library after `dlclose()`: what the property forbids
   deriving Repr, DecidableEq
 
 inductive Out
   | func (n : Name)     -- a function object for symbol `n`
   | value (v : Int)
-  | done
+  | written             -- the assignment succeeded
+  | closing             -- an intermediate step of a close
+  | done                -- an `ffi.dlclose` call returned
   | err (e : Err)
   deriving Repr, DecidableEq
 
@@ -69,48 +88,67 @@ def setMem : List (Name × Int) → Name → Int → List (Name × Int)
 /-- Resolve the address of variable `n`: `dl_check_closed` / `cdlopen_fetch`'s NULL test, then `dlsym`. -/
 def fetchVar (s : State) (n : Name) : Except Err Int :=
   if !s.isOpen then .error .closed
+  else if !s.loaded then .error .useAfterUnload
   else match s.mem.lookup n with
     | some v => .ok v
     | none => .error .notFound
+
+/-- Dereference a cached address (out-of-line accessor objects): no closed check. -/
+def derefVar (s : State) (n : Name) : Except Err Int :=
+  if !s.loaded then .error .useAfterUnload
+  else match s.mem.lookup n with
+    | some v => .ok v
+    | none => .error .notFound
+
+/-- `ffi.dlclose(lib)` as one uninterrupted call.
+* out-of-line (`ffi_dlclose`): nothing if the handle is NULL; else NULL it, clear `l_dict`, `dlclose()`.
+* in-line (`__cffi_close__`): `close_lib()` (`dlclose()` + NULL if not yet) then `__dict__.clear()`, unconditionally. -/
+def closeAll (impl : Impl) (s : State) : State :=
+  match impl with
+  | .outOfLine => if s.isOpen then { s with isOpen := false, cachedF := [], cachedV := [], loaded := false } else s
+  | .inline => { s with isOpen := false, cachedF := [], cachedV := [], loaded := (if s.isOpen then false else s.loaded) }
+
+/-- The same call as the sequence of its steps, in the order the code performs them; any operation
+of another thread may come between two `closeStep`s (this allows more interleavings than the GIL does
+today: in `ffi_dlclose` all three steps run without a release point; in `__cffi_close__` there is one
+between `close_lib()` and `__dict__.clear()`).
+* out-of-line: (1) test + NULL the handle, (2) clear the cache, (3) `dlclose()`.
+* in-line: (1) `close_lib()`: `dlclose()` and NULL the handle atomically, (2) clear `__dict__`. -/
+def closeStep (impl : Impl) (s : State) : State × Out :=
+  match impl, s.phase with
+  | .outOfLine, .none =>
+    if s.isOpen then ({ s with isOpen := false, phase := .nulled }, .closing) else (s, .done)
+  | .outOfLine, .nulled => ({ s with cachedF := [], cachedV := [], phase := .cleared }, .closing)
+  | .outOfLine, .cleared => ({ s with loaded := false, phase := .none }, .done)
+  | .inline, .none =>
+    ({ s with isOpen := false, loaded := (if s.isOpen then false else s.loaded), phase := .nulled }, .closing)
+  | .inline, _ => ({ s with cachedF := [], cachedV := [], phase := .none }, .done)
+
+def outOf : Except Err Int → (Int → State × Out) → State → State × Out
+  | .ok v, k, _ => k v
+  | .error e, _, s => (s, .err e)
 
 def step (impl : Impl) (s : State) : Op → State × Out
   | .getFunc n =>
     if n ∈ s.cachedF then (s, .func n)                 -- dict hit: no library access
     else if !s.isOpen then (s, .err .closed)
+    else if !s.loaded then (s, .err .useAfterUnload)
     else if n ∈ s.funcs then ({ s with cachedF := n :: s.cachedF }, .func n)
     else (s, .err .notFound)
   | .readVar n =>
     match impl with
-    | .inline =>
-      match fetchVar s n with
-      | .ok v => (s, .value v)
-      | .error e => (s, .err e)
+    | .inline => outOf (fetchVar s n) (fun v => (s, .value v)) s
     | .outOfLine =>
-      if n ∈ s.cachedV then
-        -- cached accessor: dereferences the remembered address, no closed check
-        match s.mem.lookup n with
-        | some v => (s, .value v)
-        | none => (s, .err .notFound)
-      else match fetchVar s n with
-        | .ok v => ({ s with cachedV := n :: s.cachedV }, .value v)
-        | .error e => (s, .err e)
+      if n ∈ s.cachedV then outOf (derefVar s n) (fun v => (s, .value v)) s
+      else outOf (fetchVar s n) (fun v => ({ s with cachedV := n :: s.cachedV }, .value v)) s
   | .writeVar n v =>
     match impl with
-    | .inline =>
-      match fetchVar s n with
-      | .ok _ => ({ s with mem := setMem s.mem n v }, .done)
-      | .error e => (s, .err e)
+    | .inline => outOf (fetchVar s n) (fun _ => ({ s with mem := setMem s.mem n v }, .written)) s
     | .outOfLine =>
-      if n ∈ s.cachedV then
-        match s.mem.lookup n with
-        | some _ => ({ s with mem := setMem s.mem n v }, .done)
-        | none => (s, .err .notFound)
-      else match fetchVar s n with
-        | .ok _ => ({ s with cachedV := n :: s.cachedV, mem := setMem s.mem n v }, .done)
-        | .error e => (s, .err e)
-  | .close =>
-    if s.isOpen then ({ s with isOpen := false, cachedF := [], cachedV := [] }, .done)
-    else (s, .done)
+      if n ∈ s.cachedV then outOf (derefVar s n) (fun _ => ({ s with mem := setMem s.mem n v }, .written)) s
+      else outOf (fetchVar s n) (fun _ => ({ s with cachedV := n :: s.cachedV, mem := setMem s.mem n v }, .written)) s
+  | .close => (closeAll impl s, .done)
+  | .closeStep => closeStep impl s
 
 def run (impl : Impl) (s : State) : List Op → State
   | [] => s
